@@ -23,8 +23,14 @@ Section Engine.
     | _ =>
         _ <- (match r with Err (XInvalid m) => if internal_msg m then mark_dirty else ret tt | _ => ret tt end) ;;
         c <- cleanup LF (exec lvl) ;;
-        let r' := match c with Some e => Err e | None => r end in
         t <- get_ts ;;
+        let r' := match c with
+                  | Some e => Err e
+                  | None => match r, skipreq t with
+                            | Ok _, Some m => Err (XInvalid m)       (* skip requested by a cleanup function *)
+                            | _, _ => r
+                            end
+                  end in
         match r', failed t with
         | Err XFuel, _ => throw XFuel
         | Ok _, Some m | Err (XInvalid _), Some m => throw (XStop m SLate)
